@@ -194,6 +194,12 @@ def c07_c(ctx):
                   'the finished population is not stored before the round counter advances and '
                   'the next round is planned', fn=up, node=apps[0] if apps else up.node)
         for r in rounds:
+            ok = ctx.must_follow(up, r, inits)
+            ctx.check(ok, up, 'a new round is planned whenever the round advances',
+                      "_init_new_round() follows state['round'] += 1 on every path",
+                      'the round counter can advance without the next round being planned',
+                      fn=up, node=r)
+        for r in rounds:
             ok = isinstance(r, ast.AugAssign) and isinstance(r.op, ast.Add) and \
                 ex.term(r.value) == ('const', 1)
             ctx.check(ok, up, 'round advances by one', "state['round'] += 1",
@@ -211,6 +217,53 @@ def c07_c(ctx):
                       'append(self._extract_population())',
                       'the appended population is not the one extracted (and weighted) now',
                       fn=up, node=a)
+    # the last population is recorded too: continued sampling starts from len(_populations)
+    for er in smc.overrides('extract_result'):
+        exr = ctx.ex(er)
+        apps = [c for c in ctx.calls(er, name='append')
+                if match(exr.term(c.func.value), pattern('self._populations')) is not None]
+        ok = len(apps) == 1 and cfg_of(er).must_pass([ctx.node(er, apps[0])]) and \
+            contains(exr.term(apps[0].args[0]), 'self._extract_population()')
+        ctx.check(ok, er, 'final population recorded',
+                  '_populations.append(self._extract_population()) in extract_result',
+                  'the population returned to the user is not recorded in _populations: a '
+                  'continued run restarts from (and is weighted against) an older population',
+                  fn=er, node=apps[0] if apps else er.node)
+        rr = returns(er)
+        okp = False
+        if rr:
+            rt = exr.term(rr[-1].value)
+            kws = dict(rt[3]) if rt[0] == 'call' else {}
+            pv = kws.get('populations')
+            okp = pv is not None and match_any(pv, ('self._populations.copy()',
+                                                    'list(self._populations)',
+                                                    'self._populations[:]')) is not None and \
+                bool(apps) and ctx.must_precede(er, apps, rr[-1])
+        ctx.check(okp, er, 'result lists all recorded populations',
+                  'populations=self._populations.copy() after the append',
+                  'the result does not carry a copy of all recorded populations', fn=er,
+                  node=rr[-1] if rr else er.node)
+    so = ctx.own_method(smc, 'set_objective')
+    exso = ctx.ex(so)
+    st0 = [s for (s, t2, k) in ctx.stores(so, "self.state['round']") if isinstance(s, ast.Assign)]
+    ok = bool(st0) and match(exso.term(st0[0].value), pattern('len(self._populations)')) \
+        is not None
+    ctx.check(ok, so, 'continued sampling resumes after the recorded populations',
+              "state['round'] = len(self._populations)",
+              'the starting round is not the number of recorded populations', fn=so,
+              node=st0[0] if st0 else so.node)
+    uo = smc.lookup('_update_objective')
+    if uo is not None:
+        exu = ctx.ex(uo)
+        stn = [s for (s, t2, k) in ctx.stores(uo, "self.objective['n_batches']")
+               if isinstance(s, ast.Assign)]
+        ok = bool(stn) and contains(exu.term(stn[0].value),
+                                    'sum([_p.n_batches for _p in self._populations])') and \
+            contains(exu.term(stn[0].value), "self._rejection.objective['n_batches']")
+        ctx.check(ok, uo, 'batch budget = finished rounds + current round',
+                  "sum(pop.n_batches) + _rejection.objective['n_batches']",
+                  'the SMC batch budget is not the batches of the recorded populations plus the '
+                  'current inner objective', fn=uo, node=stn[0] if stn else uo.node)
     for st in smc.overrides('_set_threshold') if smc.lookup('_set_threshold') else []:
         ex = ctx.ex(st)
         cs = ctx.calls(st, 'weighted_sample_quantile(*_)')
@@ -353,6 +406,15 @@ def c07_f(ctx):
     if n_thr < 1:
         ctx.bad(inr, 'threshold in force', 'no inner round is given a threshold', fn=inr,
                 node=inr.node)
+    ok = cfg_of(inr).must_pass([ctx.node(inr, c) for c in so])
+    ctx.check(ok, inr, 'every new round gets an objective', 'set_objective on every path',
+              'a round can start without the inner objective being set', fn=inr, node=so[0])
+    rs = ctx.calls(inr, 'self._set_rejection_round(*_)')
+    ok = bool(rs) and all(ctx.must_precede(inr, rs, c) for c in so)
+    ctx.check(ok, inr, 'fresh inner sampler before its objective',
+              '_set_rejection_round() before set_objective()',
+              'the objective is set on the previous round\'s inner sampler', fn=inr,
+              node=rs[0] if rs else inr.node)
     cpt = smc.methods.get('current_population_threshold')
     if cpt is not None:
         ctx.touch(cpt)
